@@ -928,7 +928,7 @@ def gen_plateau_locus(src, with_annotation=True, chrom="chr1"):
 
 
 def gen_long_gene_locus(src, with_annotation=True, chrom="chr1", straddle=False, x_annotated=True, n_cross=1,
-                        tail_only=False):
+                        tail_only=False, inner_bridge=False):
     """A sparsely covered gene longer than two splitting windows: 3-5 exons separated by introns of 130-170 bins
     (33-43 kb), 1-3 full-length reads that are therefore processed in >= 3 regions and assigned to the same isoform in
     each of them, short reads on single exons, optionally a pile-up on the first exon (so that depth 2-3 is still a
@@ -1013,6 +1013,25 @@ def gen_long_gene_locus(src, with_annotation=True, chrom="chr1", straddle=False,
             special.append("x%d" % k)
             reads.append(R.make_read("x%d" % k, chrom, blocks, flag=16 if stx == "-" else 0, mapq=60,
                                      polya=25 if stx == "+" else 0, polyt=25 if stx == "-" else 0))
+    if inner_bridge and n_ex >= 3:
+        # a compact gene W inside the second intron of L (i.e. behind the first split point, in a region of its own
+        # gene set) and reads that join the first exon of L to the exons of W: in the first region they can only be
+        # compared with L, in the later one with L and W
+        w0 = chain[1][1] + src.int(40, 90) * BIN
+        cw = [[w0 + 1, w0 + 300], [w0 + 701, w0 + 1000], [w0 + 1401, w0 + 1700]]
+        if cw[-1][1] + 2000 < chain[2][0]:
+            genes.append({"id": "W0", "chr": chrom, "strand": strand, "canon": "canon",
+                          "transcripts": [{"id": "WT0", "exons": cw}]})
+            overrides += build.splice_overrides(chrom, cw, strand)
+            for _ in range(src.int(3, 6)):
+                k += 1
+                reads.append(R.make_read("w%d" % k, chrom, [list(b) for b in cw], flag=16 if strand == "-" else 0,
+                                         mapq=60))
+            for _ in range(src.int(1, 3)):
+                k += 1
+                special.append("br%d" % k)
+                reads.append(R.make_read("br%d" % k, chrom, [list(chain[0])] + [list(b) for b in cw],
+                                         flag=16 if strand == "-" else 0, mapq=60))
     end = chain[-1][1]
     if src.bool(0.6):
         g0 = end + src.int(300, 2000)
